@@ -163,7 +163,7 @@ def shrink_text(pred: Callable[[str], bool], s: str, budget: int = 400) -> str:
 # =============================================================================================== correspondence
 def corr_writer_reader(ck: Ck) -> None:
     rng = ck.rng
-    n_long, n_short = ck.budget(14, 120), ck.budget(160, 1500)
+    n_long, n_short = ck.budget(10, 120), ck.budget(160, 1500)
     corpus = [(True, '\t', ''), (False, '\t', ''), (True, '\t', 'q' * 999 + '"zz'), (False, '\t\t', 'q' * 999 + '\nzz'),
               (True, '\t', 'q' * 998 + '\\' + 'z'), (True, '', 'a b ' * 300), (True, '\t', ('w' * 130 + '\n') * 9),
               (False, '\t', 'x' * 1001), (True, '\t', 'x' * 1000), (True, '\t', ' ' + 'y' * 1500)]
@@ -857,7 +857,9 @@ def search_bundled(ck: Ck) -> None:
     from srctools.fgd import FGD
     fgd = FGD.engine_dbase()
     ck.extra['bundled_entities'] = len(fgd.entities)
-    for opts in OPTS:
+    # quick tier: both syntaxes, once with and once without spawnflag labels; all four combinations in the thorough tier
+    # and as soon as any tie is broken
+    for opts in (OPTS if ck.budget(2, 4) == 4 else [OPTS[0], OPTS[3]]):
         on = opt_name(opts)
         r = roundtrip_fgd(fgd, opts)
         ck.count('search_bundled_entities', len(fgd.entities))
@@ -1198,7 +1200,7 @@ def search_lazy(ck: Ck, data: bytes, tb: dict) -> None:
     names = tb['names']
     inv = {v: k for k, v in tb['ident'].items()}
     alias_names = [inv[i] for i in tb['bases']]
-    rounds = ck.budget(6, 30)
+    rounds = ck.budget(4, 30)
     for r in range(rounds):
         db = fresh_db(data)
         if r == 0:
